@@ -168,8 +168,9 @@ where
     ) -> Result<()> {
         // check if the range is valid
         let leaves_len = leaves.len();
-        if start + leaves_len > self.capacity() {
-            return Err(Report::msg("provided range exceeds set size"));
+        match start.checked_add(leaves_len) {
+            Some(end) if end <= self.capacity() => (),
+            _ => return Err(Report::msg("provided range exceeds set size")),
         }
         if leaves_len == 0 {
             return Ok(());
